@@ -312,16 +312,25 @@ fn case_new_keyed<C: Ctx2>(outlen_fixed: Option<usize>) {
 
 // ------------------------------------------------------------------------------------------------ update step
 fn case_update_step<C: Ctx2, const MAX: usize>() {
-    let a = arb();
-    let data = Bytes::<MAX>::any();
+    case_update_step_fix::<C, MAX>(None);
+}
+/// `fix` = Some((pending bytes, input length)): the same step with a CONCRETE shape (contents, chaining value and counter stay symbolic)
+fn case_update_step_fix<C: Ctx2, const MAX: usize>(fix: Option<(usize, usize)>) {
+    let mut a = arb();
+    let mut data = Bytes::<MAX>::any();
+    if let Some((bl, ln)) = fix {
+        a.buflen = bl;
+        data.len = ln;
+    }
     let j: usize = any(); // "for every byte position": one symbolic position (see hash_fixedbuf.rs)
     assume(j < BB);
     let len = data.len;
     let (buf, buflen) = (a.buf, a.buflen);
-    vcover!(len == 0, "empty input");
-    vcover!(buflen > 0 && buflen + len == BB, "buffer becomes exactly full: nothing compressed yet");
-    vcover!(buflen == BB && len == 1, "full pending block is compressed only now");
-    vcover!(buflen + len == 2 * BB + 1, "two blocks compressed, one byte pending");
+    let f = fix.is_some();
+    vcover!(f || len == 0, "empty input");
+    vcover!(f || (buflen > 0 && buflen + len == BB), "buffer becomes exactly full: nothing compressed yet");
+    vcover!(f || (buflen == BB && len == 1), "full pending block is compressed only now");
+    vcover!(f || buflen + len == 2 * BB + 1, "two blocks compressed, one byte pending");
     vcover!(buflen + len > BB && a.t[0] > W::MAX - (BB as W), "low counter word wraps inside the step");
     let mut c: C = mk(&a);
     c_reset();
@@ -553,6 +562,23 @@ pub(crate) fn c01_blake2s_new_keyed_bits() {
     case_new_keyed::<Context<256>>(Some(32));
     case_new_keyed::<Context<224>>(Some(28));
     case_new_keyed::<Context<12>>(Some(2));
+}
+/// quick tier, ContextDyn: the update step at concrete shapes around every boundary (the symbolic-shape step on ContextDyn is thorough-only)
+fn update_shapes<C: Ctx2>() {
+    case_update_step_fix::<C, 130>(Some((0, 64)));
+    case_update_step_fix::<C, 130>(Some((0, 65)));
+    case_update_step_fix::<C, 130>(Some((1, 63)));
+    case_update_step_fix::<C, 130>(Some((64, 1)));
+    case_update_step_fix::<C, 130>(Some((64, 64)));
+    case_update_step_fix::<C, 130>(Some((5, 123)));
+    case_update_step_fix::<C, 130>(Some((0, 128)));
+    case_update_step_fix::<C, 130>(Some((0, 129)));
+}
+#[cfg_attr(kani, kani::proof)]
+#[cfg_attr(kani, kani::unwind(66))]
+#[cfg_attr(kani, kani::stub(crate::hashing::blake2::EngineS::compress, compress_rec_j))]
+pub(crate) fn c01_blake2s_update_shapes_dyn() {
+    update_shapes::<ContextDyn>();
 }
 #[cfg_attr(kani, kani::proof)]
 #[cfg_attr(kani, kani::unwind(66))]
